@@ -388,12 +388,19 @@ def runCalls (f : Nat) (pf : ParseFn) (pol : Policy) (maps : List Nat) :
             | none => "")
          runCalls f pf pol maps rest s' (out :: acc))
     | .list [.atom "eval", .atom h, .atom mi, .atom b, .atom rng] =>
-      (match unhex h, mi.toNat?, (if b == "default" then some defaultBudget else b.toNat?), rng.toNat? with
+      (match unhex h, (if mi == "none" then some maps.length else mi.toNat?),
+             (if b == "default" then some defaultBudget else b.toNat?), rng.toNat? with
        | some src, some i, some budget, some seed =>
-         (match maps[i]? with
+         -- `names=None`: eval pushes a fresh empty mapping of its own
+         let (sA, addr?) : Session × Option Nat :=
+           if mi == "none" then
+             let (h', a) := s.world.heap.alloc (.dict [])
+             ({ s with world := { s.world with heap := h' } }, some a)
+           else (s, maps[i]?)
+         (match addr? with
           | none => (("bad-map") :: acc).reverse
           | some addr =>
-            let s0 := { s with world := { s.world with rng := seed } }
+            let s0 := { sA with world := { sA.world with rng := seed } }
             let vmi := s0.world.vms.length
             let (r, s') := evalCall pf pol maxSteps s0 src addr budget
             let h := s'.world.heap
@@ -407,6 +414,7 @@ def runCalls (f : Nat) (pf : ParseFn) (pol : Policy) (maps : List Nat) :
               | .steps => ("U steps", st0)
             let (nm, _) := writeVal fu h st1 (.ref addr)
             let ops := (s'.world.vm? vmi).map (·.ops) |>.getD 0
+            let nm := if mi == "none" then "-" else nm
             let out := if hd.startsWith "U " then hd else hd ++ " ;; names " ++ nm ++ " ;; ops " ++ toString ops
             runCalls f pf pol maps rest s' (out :: acc))
        | _, _, _, _ => (("bad-eval") :: acc).reverse)
